@@ -351,6 +351,35 @@ func (rn *runner) extHistory(t *Target, extendee string, xs []ExtVar, steps int)
 			fail("ext/bytes-incoherent", "marshaled bytes do not carry exactly the extensions that are set", sortedNums(want), sortedNums(present)+" unknown="+hx(da.GetUnknown()))
 			return
 		}
+		// the same through csproto.Marshal, i.e. through the generated Size()/MarshalTo() where the type has them
+		var bc []byte
+		var ec error
+		if p := safeCall(func() { bc, ec = csproto.Marshal(a) }); p != "" {
+			fail("ext/marshal-panic", "csproto.Marshal panicked on a message with extensions", "no panic", p)
+			return
+		}
+		if ec == nil {
+			dc, derr := t.toDyn(extendee, bc)
+			if derr != nil || dc == nil {
+				fail("ext/csproto-bytes-unparseable", "the bytes of csproto.Marshal are not parseable by the reference", hx(bb), hx(bc))
+				return
+			}
+			present = present[:0]
+			dc.Range(func(fd protoreflect.FieldDescriptor, _ protoreflect.Value) bool {
+				if fd.IsExtension() {
+					present = append(present, int32(fd.Number()))
+				}
+				return true
+			})
+			if sortedNums(present) != sortedNums(want) || len(dc.GetUnknown()) != 0 {
+				fail("ext/csproto-bytes-incoherent", "the bytes of csproto.Marshal do not carry exactly the extensions that are set (a cleared or never-set extension appears, or a set one is missing)", sortedNums(want), sortedNums(present)+" unknown="+hx(dc.GetUnknown())+" bytes="+hx(bc))
+				return
+			}
+			if !proto.Equal(dc, db) {
+				fail("ext/csproto-bytes-differ", "csproto.Marshal of the message driven through csproto decodes to a different message than the runtime's bytes of the twin", hx(bb), hx(bc))
+				return
+			}
+		}
 	}
 	Count("extensions", t.where(extendee)+strings.Join(log, ";"), "ok", steps, len(log) > 0)
 }
